@@ -330,6 +330,7 @@ func (r *Reconciler) getPodList(ds *datadoghqv1alpha1.ExtendedDaemonSet) (*corev
 	podList := &corev1.PodList{}
 	podSelector := labels.Set{datadoghqv1alpha1.ExtendedDaemonSetNameLabelKey: ds.Name}
 	podListOptions := []client.ListOption{
+		client.InNamespace(ds.Namespace),
 		client.MatchingLabelsSelector{
 			Selector: podSelector.AsSelectorPreValidated(),
 		},
@@ -406,18 +407,16 @@ func (r *Reconciler) getOldDaemonsetPodList(ds *datadoghqv1alpha1.ExtendedDaemon
 		// Error reading the object - requeue the request.
 		return nil, err
 	}
-	podListOptions := []client.ListOption{}
+	podListOptions := []client.ListOption{client.InNamespace(ds.Namespace)}
 	if oldDaemonset.Spec.Selector != nil {
 		selector, err2 := utils.ConvertLabelSelector(r.log, oldDaemonset.Spec.Selector)
 		if err2 != nil {
 			return nil, err2
 		}
 
-		podListOptions = []client.ListOption{
-			client.MatchingLabelsSelector{
-				Selector: selector,
-			},
-		}
+		podListOptions = append(podListOptions, client.MatchingLabelsSelector{
+			Selector: selector,
+		})
 	}
 
 	if err = r.client.List(context.TODO(), podList, podListOptions...); err != nil {
